@@ -13,7 +13,8 @@ Ltac norm_inv :=
              | |- context [ / ?y ] => tryif constr_eq x y then fail else (replace y with x by ring)
              end
          end.
-Ltac rq_leaf := first [ reflexivity | ring | (unfold Rdiv; ring) | (unfold Rdiv; norm_inv; ring) ].
+Ltac rq_leaf := first [ reflexivity | ring | (unfold Rdiv; ring) | (unfold Rdiv; norm_inv; ring)
+                      | (unfold Rdiv; rewrite ?Rinv_mult; norm_inv; ring) ].
 Ltac rq :=
   solve [ rq_leaf
         | match goal with
@@ -73,4 +74,6 @@ Proof. rq. Qed.
 Example canon_test k n p : sqrt (p * n * (1 - p)) + (k - p * n) = sqrt (n * p * (1 - p)) + (k - n * p).
 Proof. canon_to (k - n * p). canon_to (n * p * (1 - p)). reflexivity. Qed.
 Example rq_test8 p a t : (Rmin a t, (if Rle_dec p (Rmax a t) then true else false)) = (Rmin t a, (if Rle_dec p (Rmax t a) then true else false)).
+Proof. rq. Qed.
+Example rq_test9 a b c : a / b / c = a / (c * b).
 Proof. rq. Qed.
